@@ -185,6 +185,9 @@ func main() {
 		if err == nil && *replay == "" {
 			err = c01.PlainNextToEncoded(res)
 		}
+		if err == nil && *replay == "" {
+			err = c01.StringKinds(res)
+		}
 	case "C02":
 		res.Rule = "N concurrent blocked calls released in a chosen completion order: every permutation for N <= 3 (4 and 5: sampled in quick / all resp. 40 in thorough), random orders for N in 6..25; seed-driven delays at registration, write, lookup, delivery and delete; each call must return exactly its own token and be executed once; the client endpoint's hook trace is replayed through Jrpc.Corr; plus an HTTP server answering with foreign / mistyped / missing ids; distinct = (N, order)"
 		err = corr.Concurrent(d, res, *seed, thorough)
